@@ -483,6 +483,22 @@ cmp_store_model(ini_p ini, const model_t *m, char *why, size_t why_sz) {
 	return (0);
 }
 
+/* requested size of the allocation that holds a record */
+#ifdef VH_HAS_ASAN
+size_t __sanitizer_get_allocated_size(const volatile void *p);
+#endif
+static size_t
+real_alloc_size(const void *rec) {
+#ifdef C17_INPLACE
+	return ((((const c17_hdr_t *)rec) - 1)->req);
+#elif defined(VH_HAS_ASAN)
+	return (__sanitizer_get_allocated_size(rec));
+#else
+	(void)rec;
+	return ((size_t)-1);
+#endif
+}
+
 /* White-box: every record's pointers point into the record's own storage (properties.jsonl,
  * anchors.state) - the precondition for the canonical form below to be meaningful. */
 static int
@@ -505,6 +521,14 @@ record_invariant(ini_p ini, char *why, size_t why_sz) {
 		 * capacity is watched by ASan. */
 		if (l->data != (uint8_t *)(l + 1)) {
 			snprintf(why, why_sz, "line %zu: data does not point at the record's own storage", i);
+			return (1);
+		}
+		/* ... but it must never OVERSTATE it: ini_val_set writes up to data_allocated_size - 1
+		 * bytes in place without asking the allocator again. */
+		if (sizeof(ini_line_t) + l->data_allocated_size > real_alloc_size(l) ||
+		    sizeof(ini_line_t) + l->data_size > real_alloc_size(l)) {
+			snprintf(why, why_sz, "line %zu: record says %zu data bytes allocated (%zu used), the allocation has room for %zu",
+			    i, l->data_allocated_size, l->data_size, real_alloc_size(l) - sizeof(ini_line_t));
 			return (1);
 		}
 		if (INI_LINE_TYPE_VALUE == l->type) {
